@@ -199,7 +199,7 @@ LEAN_TYPE = {'Int': 'Int', 'Str': 'Str', 'Bytes': 'Str', 'Bool': 'Bool', 'TD': '
              'Truth': 'Bool', 'Char': 'Char', 'OptInt': 'Option Int', 'Builder': 'Str', 'IntList': 'List Int',
              'Unbound:Int': 'Option Int', 'D': 'Trig', 'OptD': 'Option Trig', 'TDS': 'Int', 'OptTDS': 'Option Int', 'DList': 'List Trig',
              'ATList': 'List AT', 'Comp': 'Comp', 'CompList': 'List Comp', 'Fn:Comp:Bool': 'Comp → Bool', 'Object': 'Unit', 'OptBool': 'Option Bool', 'U:PyDDD': 'PyDDD', 'U:RVals': 'PyOneMany RV', 'U:ArgU': 'PyOneMany PV', 'U:DLU': 'PyOneMany DV', 'U:StoredU': 'PyOneMany OV', 'IV': 'PyIV', 'Vals': 'PyVals', 'Val': 'Val', 'ValList': 'List Val',
-             'Store': 'CDict.Store V', 'StepOut': 'CDict.Store V × CDict.Out V', 'V': 'V', 'OptV': 'Option V', 'Msg': 'Unit', 'ExcVal': 'Exc', 'Item': 'PyItem', 'ItemList': 'List PyItem', 'EntryList': 'List Entry'}
+             'Store': 'CDict.Store V', 'StepOut': 'CDict.Store V × CDict.Out V', 'V': 'V', 'OptV': 'Option V', 'Msg': 'Unit', 'ExcVal': 'Exc', 'Item': 'PyItem', 'ItemList': 'List PyItem', 'EntryList': 'List Entry', 'U:TZP': 'PyTzid'}
 
 
 def lean_type(t):
@@ -230,7 +230,7 @@ def lean_type(t):
 def opaque_types(texts):
     """the opaque type parameters (single capital names that are no Lean type) mentioned in these Lean types"""
     known = {'Str', 'Int', 'Bool', 'Nat', 'Unit', 'Py', 'List', 'Option', 'Char', 'Exc', 'TD', 'Trig', 'Comp', 'Val', 'Entry',
-             'PyVals', 'PyItem', 'PyIV', 'PyDate', 'PyTime', 'PyDateTime', 'PyResult', 'PyOneMany', 'PyDDD', 'Loop', 'Type', 'CDict', 'SE', 'Store', 'Out'}
+             'PyVals', 'PyItem', 'PyIV', 'PyDate', 'PyTime', 'PyDateTime', 'PyResult', 'PyOneMany', 'PyDDD', 'Loop', 'Type', 'CDict', 'SE', 'Store', 'Out', 'PyTzid'}
     out = []
     for t in texts:
         for w in re.findall(r"(?<![\w.'])[A-Z][A-Za-z]*(?![\w.'])", t):
@@ -575,6 +575,23 @@ TARGETS = [
     Target('cal.py', 'Component', 'to_ical', 'Component_to_ical', 'Comp', {},
            dict(SER_LINE, **{'content_lines.to_ical()': ('expr', 'lines_to_ical', ['content_lines'], 'Bytes')}), False, 'ser',
            {'sorted': 'Bool'}, None, 'Bytes'),
+    # ---- wave 8, time-zone discovery (C18): Calendar.timezones / get_used_tzids / get_missing_tzids / add_missing_timezones.
+    # `self` is the tree; `self.property_items(..)` / `self.walk(..)` are the regenerated Component methods of the groups `ser` /
+    # `walk` (GROUP_USES).  What is asked of a value of a pair (`hasattr(value, 'params')`, `value.params.get('TZID')`: None,
+    # a str, or a list / tuple of str - the union `TZP`), `'TZID' in timezone`, `timezone.tz_name` (a property of Timezone that
+    # may raise), `Timezone.from_tzid(..)` (may raise; the dates are opaque) and `self.add_component(..)` are parameters
+    Target('cal.py', 'Calendar', 'timezones', 'Calendar_timezones', 'Comp', {}, {}, False, 'tzuse', {}, None, 'CompList'),
+    Target('cal.py', 'Calendar', 'get_used_tzids', 'Calendar_get_used_tzids', 'Comp', {},
+           {"hasattr(value, 'params')": ('expr', 'has_params', ['value'], 'Bool'),
+            "value.params.get('TZID')": ('expr', 'tzid_param', ['value'], 'U:TZP')}, False, 'tzuse',
+           {}, None, 'Set:Str', {'result': 'Set:OptStr'}),
+    Target('cal.py', 'Calendar', 'get_missing_tzids', 'Calendar_get_missing_tzids', 'Comp', {},
+           {"'TZID' in timezone": ('expr', 'has_tzid', ['timezone'], 'Bool'),
+            'timezone.tz_name': ('pexpr', 'tz_name', ['timezone'], 'Str')}, False, 'tzuse', {}, None, 'Set:Str'),
+    Target('cal.py', 'Calendar', 'add_missing_timezones', 'Calendar_add_missing_timezones', 'Comp', {},
+           {'Timezone.from_tzid': ('pfun', 'from_tzid', ['Str'], 'Comp', {'first_date': 'DT', 'last_date': 'DT'}),
+            'self.add_component': ('mut', 'add_component', ['Comp'])}, False, 'tzuse',
+           {'first_date': 'DT', 'last_date': 'DT'}, None, 'Comp'),
     # ---- the parse loop (C01 / C04 / C09): Component.from_ical.  Everything done with the opaque objects is a parameter
     Target('cal.py', 'Component', 'from_ical', 'Component_from_ical', None, {}, FROM_ICAL, False, 'parse',
            {'st': 'Str', 'multiple': 'Bool'}, None, 'Result:C', {'stack': 'List:C', 'comps': 'List:C'}),
@@ -655,7 +672,11 @@ UNIONS = {'DLU': {'members': {'DV': 'one', 'List:DV': 'many'}, 'lean': 'PyOneMan
                     'classes': {'SEQUENCE_TYPES': ['many']}},
           'PyDDD': {'members': {'PyDate': 'date', 'PyDateTime': 'dt', 'PyTime': 'time', 'TD': 'dur'},
                     'pair': 'period',       # a tuple display of two values of the union
-                    'classes': {'datetime': ['dt'], 'date': ['date', 'dt'], 'time': ['time'], 'timedelta': ['dur'], 'tuple': ['period']}}}
+                    'classes': {'datetime': ['dt'], 'date': ['date', 'dt'], 'time': ['time'], 'timedelta': ['dur'], 'tuple': ['period']}},
+          # wave 8: what `params.get('TZID')` gives: None or a str (`one`, an optional str), or a list / tuple of str (`many`)
+          # (`many` stands for both list and tuple: a test that names only one of them does not decide it and is refused)
+          'TZP': {'members': {'OptStr': 'one', 'StrList': 'many'}, 'lean': 'PyTzid', 'classes': {'list': ['many'], 'tuple': ['many']},
+                  'all_of': {'many': ['list', 'tuple']}}}
 
 
 def others_rebind(func, name):
@@ -1131,6 +1152,8 @@ class Fn:
             return V('none', 'OptBool', None)
         if node.id == 'self' and self.dictself:
             self.fail(node, '`self` of a dict method outside `super().<m>(..)`')
+        if node.id == 'self' and self.objself and 'self' in env:
+            return env['self']      # wave 8: a method that changes `self` (declared 'mut' on self.<m>): the tree it is now
         if node.id == 'self' and self.objself:
             return V("(Comp.mk name' props' subs')", 'Comp', None)
         if node.id == 'self' and 'self' in env:
@@ -1194,6 +1217,8 @@ class Fn:
                     return self.e_Constant(st.value, env)
             self.fail(node, f'cls.{node.attr} is not a class-level literal')
         dotted = ast.unparse(node)
+        if self.objself and dotted in ('self.name', 'self.subcomponents') and 'self' in env:
+            self.fail(node, f'`{dotted}` in a method that changes `self` through a declared external (read it before, or declare it)')
         if self.objself and dotted in ('self.name', 'self.subcomponents'):
             return V("name'", 'Str', None) if node.attr == 'name' else V("subs'", 'CompList', None)
         if dotted in self.t.self_attrs and isinstance(node.value, ast.Name) and node.value.id in (self.t.args or {}):
@@ -1203,11 +1228,11 @@ class Fn:
             v = self.param(*self.t.self_attrs[dotted[5:]])
             return self.narrow.get(v.lean, v)
         if isinstance(node.value, ast.Name) and node.value.id == 'self':
-            d = self.registry.get((self.t.cls, node.attr))
+            d = self.resolve(node.attr) if self.objself else self.registry.get((self.t.cls, node.attr))
             if d is not None and self.is_property(node.attr):      # a property of the class, translated earlier
                 for p in d.params:
                     self.param(*p)
-                lean = ' '.join([d.lean] + [p[0] for p in d.params])
+                lean = ' '.join([d.lean] + [p[0] for p in d.params] + ([self.e_Name(node.value, env).lean] if d.objself else []))
                 return self.hoist(node, lean, d.rtype) if d.monadic else V(f'({lean})', d.rtype, None)
             self.fail(node, f'attribute self.{node.attr} is not a declared parameter')
         if node.attr == 'tzinfo':
@@ -1222,8 +1247,36 @@ class Fn:
         return V(f'{base.lean}.{proj}', typ, None)
 
     def is_property(self, name):
+        c = self.defining_class(name) or self.cls
         return any(isinstance(st, ast.FunctionDef) and st.name == name
-                   and [ast.unparse(d) for d in st.decorator_list] == ['property'] for st in self.cls.body)
+                   and [ast.unparse(d) for d in st.decorator_list] == ['property'] for st in c.body)
+
+    def defining_class(self, name):
+        """the class whose body binds `name` as Python finds it on `self`: the class of the target, else its single base
+        class defined in the same file, and so on (several bases, or a base from elsewhere: None)"""
+        c = self.cls
+        for _ in range(8):
+            if c is None:
+                return None
+            for st in c.body:
+                if isinstance(st, (ast.FunctionDef, ast.AsyncFunctionDef, ast.ClassDef)) and st.name == name:
+                    return c
+                if isinstance(st, (ast.Assign, ast.AnnAssign, ast.AugAssign)) and any(
+                        isinstance(n, ast.Name) and n.id == name and isinstance(n.ctx, ast.Store) for n in ast.walk(st)):
+                    return c
+            if len(c.bases) != 1 or not isinstance(c.bases[0], ast.Name) or self.modnames.get(c.bases[0].id) != 'def' or self.tree is None:
+                return None
+            c = next((n for n in self.tree.body if isinstance(n, ast.ClassDef) and n.name == c.bases[0].id), None)
+        return None
+
+    def resolve(self, name):
+        """the translated method `name` of `self` (wave 8: also one inherited from a base class of the same file, when no
+        class in between defines the name)"""
+        d = self.registry.get((self.t.cls, name))
+        if d is not None or self.cls is None:
+            return d
+        c = self.defining_class(name)
+        return self.registry.get((c.name, name)) if c is not None else None
 
     def e_UnaryOp(self, node, env):
         if isinstance(node.op, ast.Not):
@@ -1236,6 +1289,14 @@ class Fn:
         self.fail(node, f'unary {type(node.op).__name__} on {v.type}')
 
     def e_BinOp(self, node, env):
+        if isinstance(node.op, ast.Sub) and isinstance(node.right, ast.Set) and len(node.right.elts) == 1 \
+                and isinstance(node.right.elts[0], ast.Constant) and node.right.elts[0].value is None:
+            a = self.expr(node.left, env)       # wave 8: `s - {None}`: a new set without None
+            if a.type == 'Set:OptStr':
+                return V(f'(setDropNone {a.lean})', 'Set:Str', None)
+            if a.type == 'Set:Str':
+                return a        # None is no element of it
+            self.fail(node, f'`- {{None}}` on a value of type {a.type}')
         return self.binop(node, node.op, self.expr(node.left, env), self.expr(node.right, env), node.right)
 
     def binop(self, node, op, a, b, right_node=None):
@@ -1448,6 +1509,10 @@ class Fn:
                 v = self.expr(given[p], env)
             elif p in defaults and isinstance(defaults[p], ast.Constant):
                 v = self.e_Constant(defaults[p], env)       # the default of the callee
+            elif p in defaults and typ.startswith('Fn:') and typ.endswith(':Bool') and isinstance(defaults[p], ast.Lambda) \
+                    and len(defaults[p].args.args) == 1 and not defaults[p].args.defaults and not defaults[p].args.vararg \
+                    and not defaults[p].args.kwarg and isinstance(defaults[p].body, ast.Constant) and type(defaults[p].body.value) is bool:
+                v = V(f'(fun _ => {"true" if defaults[p].body.value else "false"})', typ, None)     # `lambda c: True`
             else:
                 self.fail(node, f'argument `{p}` of `{ast.unparse(node)[:40]}` is missing and has no constant default')
             if v.type == 'Str' and typ == 'OptStr':
@@ -1772,8 +1837,8 @@ class Fn:
                     self.recursive = True
                     lean = ' '.join([self.t.lean + '«EXT»', recv.lean] + [a.lean for a in args])
                     return self.hoist(node, lean, self.t.ret) if self.monadic else V(f'({lean})', self.t.ret, None)
-                d = self.registry.get((self.t.cls, fn.attr))
-                if d is not None and d.objself:     # another translated method of the class
+                d = self.resolve(fn.attr)
+                if d is not None and d.objself and not self.is_property(fn.attr):     # another translated method of the class (or of a base class)
                     args = self.bound_args(node, d.func, d.argtypes, env)
                     ext = [self.param(*p).lean for p in d.params]
                     lean = ' '.join([d.lean] + ext + [recv.lean] + [a.lean for a in args])
@@ -1961,6 +2026,12 @@ class Fn:
             rest = [self.param(*p).lean for p in d.params[d.nargs:]]     # its parameters become ours
             lean = ' '.join([d.lean] + [a.lean for a in args] + rest)
             return self.hoist(node, lean, d.rtype) if d.monadic else V(f'({lean})', d.rtype, None)
+        if fn.id == 'sorted' and 'sorted' not in self.modnames and len(node.args) == 1 and not node.keywords \
+                and not isinstance(node.args[0], ast.Starred):
+            v = self.expr(node.args[0], env)        # wave 8: of a set / list of str: the code-point order is total on distinct
+            if v.type in ('Set:Str', 'StrList'):    # strings and equal strings cannot be told apart, so the result is determined
+                return V(f'(pySortedStr {v.lean})', 'StrList', None)
+            self.fail(node, f'sorted() of a value of type {v.type} (only a set or list of str)')
         builtins = ('str', 'int', 'abs', 'len', 'date', 'time', 'datetime')
         if fn.id in builtins and self.modnames.get(fn.id, f'datetime.{fn.id}') != f'datetime.{fn.id}':
             self.fail(node, f'`{fn.id}` is rebound at module level ({self.modnames[fn.id]})')
@@ -2216,6 +2287,40 @@ class Fn:
             env = dict(env)
             env["out'"] = V("out'", 'DList', None)
             return self.take_pre() + [f"let out' : List Trig := (out' ++ [{v.lean}])"] + self.block(rest, env, tail)
+        if isinstance(s, ast.Expr) and isinstance(s.value, ast.Call) and isinstance(s.value.func, ast.Attribute) \
+                and isinstance(s.value.func.value, ast.Name) and s.value.func.value.id in env \
+                and env[s.value.func.value.id].type.startswith('Set:'):
+            # wave 8: a Python set (a duplicate-free list): .add(x) / .update(xs) / .discard(x)
+            name, m, call = s.value.func.value.id, s.value.func.attr, s.value
+            sv = env[name]
+            et = sv.type[4:]
+            if m not in ('add', 'update', 'discard') or len(call.args) != 1 or call.keywords or isinstance(call.args[0], ast.Starred):
+                self.fail(s, f'set method `{name}.{m}(..)` (only add / update / discard with one argument)')
+            a = self.expr(call.args[0], env)
+            if m in ('add', 'discard'):
+                x = a.lean if a.type == et else f'(some {a.lean})' if (et, a.type) == ('OptStr', 'Str') else \
+                    '(none : Option Str)' if (et, a.type) == ('OptStr', 'None') else None
+                if x is None:
+                    self.fail(s, f'`{name}.{m}(..)` of a {a.type} on a set of {et}')
+                new = f'({"setAdd" if m == "add" else "setDiscard"} {sv.lean} {x})'
+            else:
+                elem = 'Str' if a.type == 'StrList' else a.type[5:] if a.type.startswith('List:') else a.type[4:] if a.type.startswith('Set:') else None
+                xs = a.lean if elem == et else f'({a.lean}.map some)' if (et, elem) == ('OptStr', 'Str') else None
+                if elem is None or xs is None:
+                    self.fail(s, f'`{name}.update(..)` of a {a.type} on a set of {et}')
+                new = f'(setUpdate {sv.lean} {xs})'
+            lines = self.take_pre()
+            env, line = self.bind(env, name, V(new, sv.type, None))
+            return lines + [line] + self.block(rest, env, tail)
+        if isinstance(s, ast.Assign) and len(s.targets) == 1 and isinstance(s.targets[0], ast.Name) and isinstance(s.value, ast.Call) \
+                and isinstance(s.value.func, ast.Name) and s.value.func.id == 'set' and not s.value.args and not s.value.keywords:
+            if 'set' in self.modnames or 'set' in env:
+                self.fail(s, '`set` is rebound')
+            declared = (self.t.locals or {}).get(s.targets[0].id, '')
+            if not declared.startswith('Set:'):
+                self.fail(s, f'`{s.targets[0].id} = set()`: the element type is not declared (locals)')
+            env, line = self.bind(env, s.targets[0].id, V(f'([] : {lean_type(declared)})', declared, None))
+            return [line] + self.block(rest, env, tail)
         if isinstance(s, ast.Expr) and is_append(s.value):
             name = s.value.func.value.id
             if name in env and env[name].lean in self.narrow and self.narrow[env[name].lean].type.startswith('List:') and s.value.func.attr == 'append':
@@ -2664,6 +2769,10 @@ class Fn:
             elif self.modnames.get(n.id) != 'datetime.' + n.id:
                 self.fail(node, f'`{n.id}` is not the class of the datetime module')
             acc += [c for c in u['classes'][n.id] if c not in acc]
+        for c, need in u.get('all_of', {}).items():
+            if c in acc and not set(need) <= {n.id for n in names}:
+                self.fail(node, f'instance test of a {x.type[2:]} for `{ast.unparse(node.args[1])}`: the member `{c}` stands for '
+                                f'{need}, the test names only part of them')
         allc = list(u['members'].values()) + ([u['pair']] if 'pair' in u else [])
         left = [c for c in allc if c not in self.excluded.get(x.lean, ())]
         return x, [c for c in left if c in acc], left
@@ -2838,6 +2947,8 @@ class Fn:
         typ = ' × '.join(lean_type(x.type) for x in ends[0])
         mon = any('←' in ln or 'throw ' in ln for ln in a + b)
         a, b = ([ln.replace('«T»', 'pure ' if mon else '') for ln in br] for br in (a, b))
+        if not mon:     # nothing in the branches can raise: a `match` inside them is a plain term (no `do`)
+            a, b = ([ln[:-3] if ln.endswith('=> do') else ln for ln in br] for br in (a, b))
         if mon:       # a branch can raise: the merge is a bind
             lines = pre + [f'let {m} : {typ} ← (', f'  if {c} then do'] + ind(ind(a)) + ['  else do'] + ind(ind(b))
         else:
@@ -3014,10 +3125,11 @@ class Fn:
             if re.fullmatch(r"[A-Za-z_][\w']*", n) and n not in inner and word(n) and n not in [c[0] for c in caps]:
                 caps.append((n, typ))
         capsig = ('«EXTSIG»' if self.objself else '') + ''.join(f' ({n} : {lean_type(t)})' for n, t in caps)
-        if self.t.group in ('parse', 'alarm', 'recur', 'add', 'cdmeta'):     # the opaque types the loop mentions
+        if self.t.group in ('parse', 'alarm', 'recur', 'add', 'cdmeta', 'tzuse'):     # the opaque types the loop mentions
             ops = opaque_types([lean_type(t) for _, t in caps] + [lean_type(slots[n]) for n in state]
                                + ([lean_type(itv.type)] if itv is not None else []))
-            capsig = ''.join(f' {{{o} : Type}}' for o in ops) + capsig
+            if not self.objself:        # (a method on the tree: «EXTSIG» brings the function's own binders)
+                capsig = ''.join(f' {{{o} : Type}}' for o in ops) + capsig
         capargs = ('«EXT»' if self.objself else '') + ''.join(' ' + n for n, _ in caps)
         body = [ln.replace(' «CAP»', capargs) for ln in body]
         sigma = [lean_type(slots[n]) for n in state] + (['Option Int'] if last else [])
@@ -3096,6 +3208,12 @@ class Fn:
                     for f in (d.fields or []) if d is not None else []:
                         if 'self__' + f not in asg:
                             asg.append('self__' + f)
+                if isinstance(n, ast.Call) and isinstance(n.func, ast.Attribute) and isinstance(n.func.value, ast.Name) \
+                        and n.func.value.id in env and env[n.func.value.id].type.startswith('Set:') and n.func.value.id not in asg:
+                    asg.append(n.func.value.id)        # wave 8: a method call on a set changes it
+                if isinstance(n, ast.Call) and self.t.externals.get(ast.unparse(n.func), ('',))[0] == 'mut' and isinstance(n.func, ast.Attribute) \
+                        and isinstance(n.func.value, ast.Name) and n.func.value.id == 'self' and 'self' in env and 'self' not in asg:
+                    asg.append('self')      # wave 8: a declared mutating method of `self`
                 if isinstance(n, ast.Call) and self.t.externals.get(ast.unparse(n.func), ('',))[0] in ('mut', 'mutlast'):
                     root = n.func
                     while isinstance(root, ast.Attribute):
@@ -3228,19 +3346,28 @@ class Fn:
             if gen:     # a generator that is exhausted: the list of what it yielded
                 self.rtype = 'DList'
                 return [self.ret(e["out'"].lean)]
+            if self.objself and 'self' in e:        # a method that changes `self` and returns None: the tree it leaves
+                self.rtype = 'Comp'
+                return [self.ret(e['self'].lean)]
             self.fail(self.func, 'a path reaches the end of the function without `return`')
         if gen:
             if any(isinstance(n, (ast.Return, ast.YieldFrom)) for n in ast.walk(self.func)):
                 self.fail(self.func, 'generator with `return` / `yield from`')
             env["out'"] = V("out'", 'DList', None)
         top = Tail(["out'"] if gen else ['self'] if (t.self_type or '').startswith('State:') else ['self__' + f for f in (self.fields or [])], off_end)
+        first_lines = []
+        if self.objself and any(isinstance(e[0], str) and e[0] == 'mut' and k.startswith('self.') for k, e in t.externals.items()):
+            # wave 8: the method changes `self` through a declared external: `self` is a variable, the method returns what it leaves
+            env['self'] = V('self', 'Comp', None)
+            first_lines = ["let self : Comp := (Comp.mk name' props' subs')"]
+            top = Tail(['self'], off_end)
         saved = list(self.used)
         try:
-            return self.block(self.func.body, env, top)
+            return first_lines + self.block(self.func.body, env, top)
         except NeedMonad:
             self.monadic, self.used, self.rtype, self.fresh, self.pre, self.notes = True, saved, None, 0, [], []
             self.aux, self.nloops, self.loopctx, self.slots, self.narrow = [], 0, [], {}, {}
-            return self.block(self.func.body, env, top)
+            return first_lines + self.block(self.func.body, env, top)
 
     def written_fields(self):
         """the declared attributes of self that the function assigns, appends to, or that a translated method it calls writes"""
@@ -3332,7 +3459,7 @@ PARAM_DOC = {'V': 'a value', 'OptV': 'a value or None', 'Comp': 'a component (tr
              'PyDateTime': 'datetime: year month day hour minute second', 'Int': 'int', 'Bool': 'bool', 'Str': 'str',
              'StrList': 'list of str'}
 RETURN_DOC = {'StepOut': 'the new state of the dict and what the call returns', 'ItemList': 'a list of pairs (name, value)', 'CompList': 'a list of components', 'DList': 'a list of dates / datetimes', 'ATList': 'a list of the same objects', 'D': 'a date or datetime', 'OptD': 'a datetime or None', 'StrList': 'a list of str', 'Tuple': 'a tuple', 'Bytes': 'bytes (as the str they encode)', 'TD': 'a timedelta', 'PyDate': 'a date', 'PyTime': 'a time',
-              'PyDateTime': 'a datetime'}
+              'PyDateTime': 'a datetime', 'Set:Str': 'a set of str (duplicate-free list, insertion order)', 'Comp': 'the component (tree) it leaves'}
 HEADERS = {
     'enc': ['/- GENERATED by tools/py2lean.py (called from tools/extract.py) from the function bodies in',
             '   src/icalendar. Do not edit: regenerated on every run; lean/ICal/Lemmas/Bodies.lean proves each',
@@ -3424,6 +3551,18 @@ HEADERS['ser'] = ['/- GENERATED by tools/py2lean.py (called from tools/extract.p
                   '   are those of ICal/Model/PyRTSer.lean; call arguments are bound by the callee\'s signature. -/',
                   'import ICal.Model.PyRTSer', 'set_option linter.unusedVariables false',
                   'namespace ICal.Gen.BodiesSer', 'open ICal ICal.PyRT', '']
+NAMESPACE['tzuse'] = 'ICal.Gen.BodiesTzUse'
+HEADERS['tzuse'] = ['/- GENERATED by tools/py2lean.py (called from tools/extract.py) from Calendar.timezones / get_used_tzids /',
+                    '   get_missing_tzids / add_missing_timezones of src/icalendar/cal.py. Do not edit: regenerated on every run;',
+                    '   lean/ICal/Lemmas/BodiesTzUse.lean proves each equal to the hand-written model (ICal/Model/TzUse.lean).  `self` is the',
+                    '   tree `Comp`; `self.property_items(..)` and `self.walk(..)` are the regenerated methods of Gen/BodiesSer.lean and',
+                    '   Gen/BodiesWalk.lean (inherited from Component: no class in between defines them).  A Python set is a duplicate-free',
+                    '   list in insertion order (ICal/Model/PyRTTzUse.lean); it is never iterated, only sorted; a method that changes `self`',
+                    '   returns the tree it leaves. -/',
+                    'import ICal.Model.PyRTTzUse', 'import ICal.Gen.BodiesSer', 'import ICal.Gen.BodiesWalk',
+                    'set_option linter.unusedVariables false',
+                    'namespace ICal.Gen.BodiesTzUse', 'open ICal ICal.PyRT', '']
+GROUP_USES = {'tzuse': ['ser', 'walk']}      # groups whose translated functions this group calls (imported, qualified names)
 NAMESPACE['walk'] = 'ICal.Gen.BodiesWalk'
 HEADERS['walk'] = ['/- GENERATED by tools/py2lean.py (called from tools/extract.py) from Component._walk / walk of',
                    '   src/icalendar/cal.py. Do not edit: regenerated on every run; lean/ICal/Lemmas/BodiesWalk.lean proves each',
@@ -3449,9 +3588,14 @@ def comment_safe(s):
     return s.replace('-/', '- /').replace('/-', '/ -')
 
 
-def translate(src_dir, group='enc'):
+def translate(src_dir, group='enc', registry=None):
     out = list(HEADERS[group])
-    fps, registry, trees = {}, {}, {}
+    fps, registry, trees = {}, ({} if registry is None else registry), {}
+    for dep in GROUP_USES.get(group, ()):       # what this group calls of another group's file: known under its qualified name
+        sub = {}
+        translate(src_dir, dep, sub)
+        for k, d in sub.items():
+            registry[k] = d._replace(lean=NAMESPACE[dep] + '.' + d.lean)
     for t in TARGETS:
         if t.group != group:
             continue
@@ -3524,7 +3668,7 @@ def translate(src_dir, group='enc'):
         sig = ''.join(f' ({p} : {lean_type(ty)})' for p, ty in fn.used)
         opaque = sorted({e[3] for e in t.externals.values() if isinstance(e[0], str) and e[0] in ('pfun', 'expr') and e[3] not in LEAN_TYPE and e[3] != 'Object' and ':' not in e[3]})
         opaque = sorted(set(opaque) | {o for o in ('AT',) if re.search(r'\b' + o + r'\b', sig)})
-        if group in ('parse', 'alarm', 'recur', 'add', 'cdmeta') or t.lean == 'vMonth_new':
+        if group in ('parse', 'alarm', 'recur', 'add', 'cdmeta', 'tzuse') or t.lean == 'vMonth_new':
             opaque = opaque_types([lean_type(ty) for _, ty in fn.used] + [fn.rtype_lean or lean_type(fn.rtype)])
         sig = ''.join(f' {{{o} : Type}}' for o in opaque) + ''.join(f' [BEq {o}]' for o in sorted(getattr(fn, 'setelts', ())) if o in opaque) + sig
         rt = fn.rtype_lean or lean_type(fn.rtype)
